@@ -74,7 +74,7 @@ int main(int argc, char** argv) {
     if (argc < 5) return 2;
     TR.open(argv[1]); std::string mode = argv[2]; int nseeds = atoi(argv[3]); unsigned long seed0 = strtoul(argv[4], nullptr, 10);
     long paths = 0, steps = 0, stuck = 0; vh::Timer tm; static const int dens[8] = {1, 3, 10, 40, -1, -2, -3, -5};
-    auto exec = [&](unsigned long seed, int den, const std::function<void()>& fn) { TR.begin_exec(); Result r = run_in_arena(3, seed, den, 8000000, fn, false); ++paths; steps += r.steps; if (r.rc) ++stuck; };
+    auto exec = [&](unsigned long seed, int den, const std::function<void()>& fn) { TR.begin_exec(); Result r = isolated_run(300, [&] { return run_in_arena(3, seed, den, 8000000, fn, false); }); ++paths; steps += r.steps; if (r.rc) ++stuck; };
     if (mode == "r1d") {
         u64 sizes[] = {0, 1, 2, 3, 5, 7, 8, 9, 13, 16, 17, 31, 33}; u64 grains[] = {1, 2, 3, 5, 8};
         for (int s = 0; s < nseeds; s++) for (u64 n : sizes) for (u64 g : grains) for (int p = 0; p < 4; p++) { if (stuck >= 10) break; exec(seed0 + s * 977 + n * 31 + g * 7 + p, dens[(s + p) % 8], [&] { one_1d(p, n, g); }); }
